@@ -26,6 +26,13 @@ Theorem C06_left_assoc_total : forall toks,
 Proof. exact left_assoc_total_shape. Qed.
 Print Assumptions C06_left_assoc_total.
 
+(* the well-shaped lists are EXACTLY the domain of the action: on every other
+   list it ends in one of the modelled host exceptions *)
+Theorem C06_left_assoc_tree_iff_shape : forall toks,
+  (exists t, parse_left toks = RTree t) <-> well_shaped is_binop_str toks = true.
+Proof. exact left_assoc_tree_iff_shape. Qed.
+Print Assumptions C06_left_assoc_tree_iff_shape.
+
 (* ... and the in-order traversal of the result is the input sequence *)
 Theorem C06_left_assoc_inorder : forall a pairs,
   forallb (fun p => is_binop_str (fst p)) pairs = true ->
